@@ -18,5 +18,6 @@ Conforms(in, obs) ==
 
 Describe(in) == [err |-> Expected(in).err, toks |-> Expected(in).toks]
 
+Beyond(in) == FALSE
 INSTANCE TraceCheck
 =============================================================================
